@@ -287,7 +287,11 @@ class CBMModel(Model):
         nodes = tuple(sorted((k, props_canon({a: b for a, b in d.items() if not (a in DELEG_PROPS and b in ('', None))})) for k, d in n.items()))
         edges = tuple(sorted((tuple(sorted(k)), props_canon(d)) for k, d in e.items()))
         # the history matters for order-independence: keep the merge ORDER out of the key only if content agrees (it is in `nodes`)
-        return (nodes, edges, self.merged, self.snap[1] if self.snap else None)
+        # the store's allocator is part of the state: equal content with an allocator that points INTO the occupied id range
+        # has a different future (the next allocation lands on live nodes) and must not be merged with the healthy state
+        st = world.shared_store()
+        healthy = st.start_id > max(st.graphs.nodes, default=0)
+        return (nodes, edges, self.merged, self.snap[1] if self.snap else None, healthy)
 
 
 MODELS = {f: CBMModel(f) for f in FAMILIES}
@@ -296,7 +300,7 @@ REPLAY = MODELS
 
 def run(report):
     q = report.tier == 'quick'
-    for fam, depth in (('F2', 4), ('F2c', 4), ('F3', 6 if q else 7), ('F3m', 5 if q else 7), ('F4', 4 if q else 8)):
+    for fam, depth in (('F2', 7), ('F2c', 6), ('F3', 6 if q else 8), ('F3m', 6 if q else 8), ('F4', 5 if q else 8)):
         g = bfs(report, fam, MODELS[fam], depth=depth, chunk=2,
                 rule=f'family {fam}: merge(X) / unmerge(X) / snapshot / rollback histories to depth {depth}; the combined graph is '
                      f'compared with the reference union of the merged set after every step (so equal sets reached by different '
